@@ -229,6 +229,28 @@ func (ms *Mesh) Connect(i, j int, labelIJ, labelJI m.SwitchLabel) error {
 	return nil
 }
 
+// SetLatency changes the measured latency both ends report for the link i-j (hop records carry it as delay).
+func (ms *Mesh) SetLatency(i, j int, latIJ, latJI uint16) {
+	if l := ms.Nodes[i].Links[j]; l != nil {
+		l.latency = latIJ
+	}
+	if l := ms.Nodes[j].Links[i]; l != nil {
+		l.latency = latJI
+	}
+}
+
+// Disconnect closes the virtual link i-j at both ends (what Link.Close does: unregister, remove routes via it).
+func (ms *Mesh) Disconnect(i, j int) {
+	if l := ms.Nodes[i].Links[j]; l != nil {
+		l.Close(nil)
+		delete(ms.Nodes[i].Links, j)
+	}
+	if l := ms.Nodes[j].Links[i]; l != nil {
+		l.Close(nil)
+		delete(ms.Nodes[j].Links, i)
+	}
+}
+
 // Introduce stores b's public identity at a (as a previous contact would have).
 func (ms *Mesh) Introduce(a, b int) error {
 	pb := ms.Nodes[b].ID.PublicAddress
